@@ -987,14 +987,27 @@ class ChannelDataChunk(object):
 
         scale = self._channel._scaling
         if scale is not None:
-            return scale.scale(self._raw_data)
+            return _to_native_byte_order(scale.scale(self._raw_data))
         elif self._raw_data.scaler_data:
             raise ValueError("Missing scaling information for DAQmx data")
         elif isinstance(self._raw_data.data, list):
             # Data for types without a corresponding numpy type (strings) is read into a list
             return np.array(self._raw_data.data, dtype=self._channel.dtype)
         else:
-            return self._raw_data.data
+            return _to_native_byte_order(self._raw_data.data)
+
+
+def _to_native_byte_order(data):
+    """ Chunks of big endian files are read with a big endian dtype, so convert these to the dtype of the channel
+    """
+    if data.dtype.isnative:
+        return data
+    if isinstance(data, TimestampArray):
+        native_data = np.empty(len(data), dtype=[('second_fractions', '<u8'), ('seconds', '<i8')])
+        native_data['second_fractions'] = data.second_fractions
+        native_data['seconds'] = data.seconds
+        return TimestampArray(native_data)
+    return data.astype(data.dtype.newbyteorder('='))
 
 
 class FileStatus:
